@@ -5,6 +5,14 @@ import "fmt"
 func registry() []PropSpec {
 	return []PropSpec{
 		{
+			ID: "C19",
+			Quick: []HarnessSpec{
+				{Pkg: pkgCC, Func: "H19a_q", Unwind: 6, AbstractBig: true, Solvers: []string{"z3-new"}, TimeoutMs: 300000, Note: "expandRequestData on one request: size of the other fields 0..40, initial padding length any value < 2^22, offset any int32, padding field present or not"},
+			},
+			Stubs: []string{"protobuf reflection, proto.Size and Any (un)marshalling replaced by the wire-size model size(n) = other + (n=0 ? 0 : 1 + varint(n) + n)", "padding bytes are length-abstracted (contents not tracked)", "natively the real reflection/wire code runs on a real UnaryRequest with the same padding length and offset"},
+			Out:   []string{"sharpness of the receive limit inside connect-go / grpc-go (second sentence of the property)"},
+		},
+		{
 			ID: "C02",
 			Quick: []HarnessSpec{
 				{Pkg: pkgCC, Func: "H02a_q", Unwind: 8, Note: "populateExpectedResponse: stream type 0..6 (incl. unspecified/out of range), 0..3 request messages of one of 4 types or undecodable, response definition present or not, 0..3 response_data items, error present or not, unary response nothing/data/error, expected response preset or not"},
